@@ -45,3 +45,24 @@ func corpusUnions() []*modSpec {
 		mk("union-map-value", "package models\n\ntype U interface{ isU() }\n\ntype A struct{ X int }\ntype L []int\n\nfunc (A) isU() {}\nfunc (L) isU() {}\n\ntype M map[string]U\n\ntype S struct{ D M }\n"),
 	}
 }
+
+func corpusGraph() []*modSpec {
+	mk := func(name, src string, extra ...modFile) *modSpec {
+		return &modSpec{Name: name, ModPath: "example.com/org/models", Target: "models.go",
+			Files: append([]modFile{{"models.go", src}}, extra...)}
+	}
+	return []*modSpec{
+		mk("graph-self-recursive", "package models\n\ntype Tree struct {\n\tChildren []Tree\n\tByName map[string]Tree\n\tPair [2]*Tree\n}\n"),
+		mk("graph-mutual", "package models\n\ntype A struct{ Bs []B }\ntype B struct{ As map[int]A; Self []B }\n"),
+		mk("graph-named-over-named", "package models\n\ntype N1 int\ntype N2 N1\ntype L1 []N2\ntype L2 L1\ntype S struct {\n\tA N2\n\tB L2\n}\n"),
+		mk("graph-time", "package models\n\nimport \"time\"\n\ntype MyDate time.Time\ntype Moment time.Time\ntype UpdateDay MyDate\n\ntype S struct {\n\tT time.Time\n\tD MyDate\n\tM Moment\n\tU UpdateDay\n\tL []time.Time\n}\n"),
+		mk("graph-generic", "package models\n\ntype IdX int64\n\ntype S struct {\n\tA Generic[IdX]\n\tB Generic[int]\n\tC Generic[S2]\n}\n\ntype S2 struct{ V string }\n", modFile{"other.go", "package models\n\ntype Generic[T any] struct {\n\tV T\n\tValid bool\n}\n"}),
+		mk("graph-stdlib", "package models\n\nimport (\n\t\"database/sql\"\n\t\"time\"\n)\n\ntype S struct {\n\tN sql.NullInt64\n\tS sql.NullString\n\tD time.Duration\n\tW time.Weekday\n}\n"),
+		mk("graph-alias", "package models\n\ntype Real struct{ X int }\ntype Alias = Real\ntype AL = []Real\n\ntype S struct {\n\tA Alias\n\tB AL\n\tC Real\n}\n"),
+		mk("graph-subpackage", "package models\n\nimport \"example.com/org/models/sub\"\n\ntype S struct {\n\tA sub.T\n\tB []sub.E\n\tC map[sub.ID]sub.T\n}\n", modFile{"sub/sub.go", "package sub\n\ntype ID int64\ntype E uint8\n\nconst (\n\tE1 E = iota\n\tE2\n)\n\ntype T struct {\n\tI ID\n\tE E\n\tInner []T\n}\n"}),
+		mk("graph-arrays", "package models\n\ntype S struct {\n\tA [0]int\n\tB [3][2]string\n\tC [][]bool\n\tD map[string][]map[int]float64\n\tE []byte\n\tF [4]byte\n}\n"),
+		mk("graph-embedded", "package models\n\ntype Base struct {\n\tID int64\n\tName string\n}\n\ntype Mid struct {\n\tBase\n\tLevel int\n}\n\ntype Top struct {\n\tMid\n\tExtra []Base\n}\n"),
+		mk("graph-source-order", "package models\n\ntype Zed struct{ A int }\n\ntype Alpha struct{ Z Zed }\n\ntype (\n\tM2 int\n\tM1 string\n)\n\ntype Beta []Alpha\n", modFile{"other.go", "package models\n\ntype NotInFile struct{ X int }\n"}),
+		mk("graph-pointer-fields", "package models\n\ntype S struct {\n\tP *int\n\tQ *S\n\tR []*S\n\tT **string\n}\n"),
+	}
+}
